@@ -15,8 +15,8 @@ PROP = dict(
                        "store_exact (after the parallel phase the store is the union of what was checked)",
                        "seen_not_requested"]),
         dict(driver="hqseen", binary="zseen", quick=500, thorough=12000, shard=50,
-             monitors=["hq_seen_only_if_reported (marked only if the HQ answered and did not return the text sent for the node)",
-                       "hq_seen_if_reported (a text the HQ did not return is skipped)",
+             monitors=["hq_seen_only_if_reported (per asset, per batch: marked only if the HQ's reply to the request that carried the node's text was an answer without that text; every Fresh node is in one of the pass's requests; after a failed batch nothing further is marked)",
+                       "hq_seen_if_reported (every batch answered: a text no answer returned is skipped)",
                        "hq_like_with_like (the text sent is the canonical text the answer is compared with)",
                        "hq_seen_after_record (faithful HQ: a canonical URL handed over before is skipped)",
                        "seen_not_requested",
@@ -27,13 +27,13 @@ PROP = dict(
             "GenerateCrawlConfig; the monitors judge by the flag --disable-seencheck alone. "
             "The canonical string is taken as the identity of a URL (its computation is C09's; key_deterministic is monitored, not proved). "
             "The crawl HQ service is not part of the repository: C08_hq_seen_after_record is about a reference HQ (a set of texts), the per-call "
-            "theorems hold for every answer. Concurrent checks that WRITE the same URL are outside the property (a record completed before a check started must be honoured: covered by the parallel leg seenconc, whose concurrent trees share only URLs they read).",
+            "theorems hold for every answer, and for every partition of a pass's request into batches with every reply per batch (the model does not predict the partition: the code as it stands sends one request). Concurrent checks that WRITE the same URL are outside the property (a record completed before a check started must be honoured: covered by the parallel leg seenconc, whose concurrent trees share only URLs they read).",
     assumptions=["fnv64a is injective on the canonical strings in play (needed by C08_seen_only_if_recorded only; checked on every generated case)",
                  "LevelDB Get returns the last value Set for a key, also after Close/Start on the same directory (the driver observes the store after every step)",
                  "http.NewRequest succeeds on a canonical URL (else the node is Failed, not modelled)",
                  "the crawl HQ returns the URLs it was sent and has not seen, with the Value it was sent (hq_ref)"],
     level_text="Theorems for every key function, every initial store and every history of tree-level operations (direct seencheck, preprocess, close/re-open) over one "
-               "persistent store, by induction over the concatenated work list; every item tree and every node position; every HQ answer. Model tied to the real "
+               "persistent store, by induction over the concatenated work list; every item tree and every node position; every HQ answer; every way of cutting the HQ request into batches (the answers of the batches, concatenated, are the answer to the whole request: C08_hq_batching_irrelevant, every --hq-batch-size >= 1: C08_hq_batch_size_irrelevant; per-asset only-if/if for every list of exchanges). Model tied to the real "
                "seencheck.Start/SeencheckItem/Close on a scratch LevelDB, to the real preprocess function and to the real hq.SeencheckItem + gocrawlhq client against a "
-               "scripted fake HQ, on histories with overlapping URLs in many spellings, including one seed's life pass after pass (Completed inner nodes with fetched children, later nodes bringing their URLs back).",
+               "scripted fake HQ that records every request of a pass with its reply, under --hq-batch-size 1..5 (45% of the cases) with assets pages of k*b-1, k*b, k*b+1 distinct assets, on histories with overlapping URLs in many spellings, including one seed's life pass after pass (Completed inner nodes with fetched children, later nodes bringing their URLs back).",
 )
